@@ -718,7 +718,7 @@ package ecs
 
 //@ func World.createArchetype(w, node, target, forStorage) (arch)
 //@   props C16 C06
-//@   requires regInv(&w.registry) && node != nil && (node.HasRelation ==> nodeOK(node))
+//@   requires regInv(&w.registry) && node != nil && (node.HasRelation ==> nodeOK(node)) && cacheSepInv(&w.filterCache)
 //@   flag convcheck nodirty assumedframe
 //@   ensures arch != nil
 //@   ensures node.HasRelation ==> arch.node == node && arch.archetypeAccess.RelationTarget == target && arch.archetypeData != nil
@@ -1354,6 +1354,7 @@ package ecs
 //@   props C07
 //@   ensures len(a.pointers) == old(len(a.pointers)) + 1 && a.pointers[old(len(a.pointers))] == elem
 //@   ensures forall k int :: {a.pointers[k]} 0 <= k && k < old(len(a.pointers)) ==> a.pointers[k] == old(a.pointers[k])
+//@   ensures[store] a.pointers.data == old(a.pointers.data) || fresh(a.pointers.data)
 //@   modifies a.pointers, a.pointers[ALL]
 
 // swap-remove; in place: the backing store is kept (a header copied before the call aliases the new content)
@@ -1467,9 +1468,30 @@ package ecs
 
 // (draft: the per-entry loop invariants are not discharged within the time limits - loops over slices of structs
 //  havoc all elements, see DESIGN.md; not counted for any property. Callers use the assumed frame below.)
+//@ pred idxRecorded(e *cacheEntry, arch *archetype) bool =
+//@   arch.archetypeAccess.HasRelationComponent && !is(e.Filter, *RelationFilter) && matches(e.Filter, arch.archetypeAccess.Mask) && e.Indices != nil ==>
+//@      mapHas(e.Indices, arch)
+// cacheSepInv: the table lists and position maps of different cache entries never share storage; lists are bounded
+//@ pred cacheSepInv(c *Cache) bool =
+//@   (forall j int, k int :: {c.filters[j].Indices, c.filters[k].Indices} 0 <= j && j < len(c.filters) && 0 <= k && k < len(c.filters) && j != k ==> !sameEntryStorage(c, j, k))
+//@   && (forall k int :: {c.filters[k].Indices} 0 <= k && k < len(c.filters) ==> len(c.filters[k].Archetypes.pointers) < 1073741823 && allocated(c.filters[k].Archetypes.pointers.data) && allocated(c.filters[k].Indices))
+// addArchetype (thin contract, C07): for an arbitrary entry (anyEntry, a skolem index) that is not a relation filter and matches
+// the new relation table, an existing position map records the table (what removeArchetype later relies on to find it).
 //@ func Cache.addArchetype(c, arch)
-//@   flag trusted
-//@   modifies all(cacheEntry.Indices)
+//@   props C07
+//@   requires arch != nil && arch.node != nil && cacheSepInv(c)
+//@   flag nosafe noframe
+//@   ensures[indexed] 0 <= anyEntry(c) && anyEntry(c) < len(c.filters) ==> idxRecorded(&c.filters[anyEntry(c)], arch)
+//@   modifies all(cacheEntry.Indices), all(pointers[archetype].pointers), elems(*archetype), mapsOf(cacheEntry.Indices)
+//@   loop #1
+//@   inv c.filters == old(c.filters)
+//@   loop #2
+//@   inv c.filters == old(c.filters)
+//@   inv 0 <= anyEntry(c) && anyEntry(c) < $i ==> idxRecorded(&c.filters[anyEntry(c)], arch) && unchanged(c.filters[anyEntry(c)].Filter) && unchanged(c.filters[anyEntry(c)].Indices)
+//@   inv anyEntry(c) >= $i && anyEntry(c) < len(c.filters) ==> unchanged(c.filters[anyEntry(c)].Filter) && unchanged(c.filters[anyEntry(c)].Indices) && unchanged(c.filters[anyEntry(c)].Archetypes.pointers.data)
+//@   inv forall k int :: {c.filters[k].Indices} $i <= k && k < len(c.filters) ==> len(c.filters[k].Archetypes.pointers) < 1073741823 && old(allocated(c.filters[k].Archetypes.pointers.data)) && old(allocated(c.filters[k].Indices)) && unchanged(c.filters[k].Archetypes.pointers.data) && unchanged(c.filters[k].Indices)
+//@   inv 0 <= anyEntry(c) && anyEntry(c) < len(c.filters) ==> (unchanged(c.filters[anyEntry(c)].Archetypes.pointers.data) || fresh(c.filters[anyEntry(c)].Archetypes.pointers.data)) && unchanged(c.filters[anyEntry(c)].Indices)
+//@   inv 0 <= anyEntry(c) && anyEntry(c) < len(c.filters) ==> (forall k int :: {c.filters[k].Indices} 0 <= k && k < len(c.filters) && k != anyEntry(c) ==> !old(sameEntryStorage(c, anyEntry(c), k)))
 //@ func Cache.addArchetypeDraft(c, arch)
 //@   requires arch != nil && 0 <= anyEntry(c) && anyEntry(c) < len(c.filters)
 //@   requires forall i int :: {c.filters[i].Filter} 0 <= i && i < len(c.filters) ==> c.filters[i].Filter != nil && len(c.filters[i].Archetypes.pointers) < 1073741823
@@ -1681,7 +1703,7 @@ package ecs
 // setRelation: the entity moves to the table of its node with the requested target (no move when the target is unchanged).
 //@ func World.setRelation(w, entity, comp, target)
 //@   props C05 C10 C11 C06
-//@   requires lockInv(&w.locks) && regInv(&w.registry) && validID(comp.id)
+//@   requires lockInv(&w.locks) && regInv(&w.registry) && validID(comp.id) && cacheSepInv(&w.filterCache)
 //@   requires int(entity.id) < len(w.entityPool.entities) && len(w.entities) == len(w.entityPool.entities) && bitSetCovers(&w.targetEntities, len(w.entities))
 //@   requires target.id != 0 ==> int(target.id) < len(w.entityPool.entities)
 //@   requires entAlive(w, entity) ==> w.entities[int(entity.id)].arch != nil && w.entities[int(entity.id)].arch.node != nil && w.entities[int(entity.id)].index < w.entities[int(entity.id)].arch.len
@@ -1933,7 +1955,7 @@ package ecs
 // target (as setRelation does for one entity) and moves row i to row start+i; the returned range is [start, start+n).
 //@ func World.setRelationArch(w, oldArch, oldArchLen, comp, target) (arch, start, end)
 //@   props C08 C05
-//@   requires regInv(&w.registry) && validID(comp.id) && oldArch != nil && oldArch.node != nil && oldArch.node.nodeData != nil && oldArch.archetypeAccess.RelationTarget != target
+//@   requires cacheSepInv(&w.filterCache) && regInv(&w.registry) && validID(comp.id) && oldArch != nil && oldArch.node != nil && oldArch.node.nodeData != nil && oldArch.archetypeAccess.RelationTarget != target
 //@   requires oldArchLen < 1073741823 && int(oldArch.archetypeAccess.RelationTarget.id) < len(w.entityPool.entities) && bitSetCovers(&w.targetEntities, len(w.entityPool.entities)) && (target.id != 0 ==> int(target.id) < len(w.entityPool.entities))
 //@   requires forall i uint32 :: {entAt(&oldArch.archetypeAccess, i)} i < oldArchLen ==> int(entAt(&oldArch.archetypeAccess, i).id) < len(w.entities)
 //@   requires forall i uint32, j uint32 :: {entAt(&oldArch.archetypeAccess, i), entAt(&oldArch.archetypeAccess, j)} i < j && j < oldArchLen ==> entAt(&oldArch.archetypeAccess, i).id != entAt(&oldArch.archetypeAccess, j).id
